@@ -226,6 +226,56 @@ pub fn run(tier: Tier, seed: u64) -> i32 {
             total.merge(st);
         }
     }
+    // far beyond the enumerated scope: hundreds of draws, a reset every 64 rows
+    {
+        let l = |n: i64| Entry::Lit(n, Radix::Dec);
+        let r62 = || random(Expr::Lit(1 << 62, Radix::Hex));
+        let body = vec![
+            Stmt::Declare("V".into(), lit(0)),
+            Stmt::Loop("i".into(), lit(6), vec![Stmt::Repeat(lit(64), vec![Entry::Paren(random(lit(200))), l(0), Entry::Paren(r62())]), Stmt::ResetRandom, Stmt::Let("a".into(), bin(BinOp::Add, r62(), random(lit(3))))]),
+        ];
+        let prog = Program { header: vec!["A".into(), "B".into(), "V".into()], body };
+        let text = text(&prog);
+        for &sd in &seeds[..4] {
+            let mut opts = RunOpts::new(400);
+            opts.repeat_last = true;
+            opts.seed = sd;
+            opts.budget = 5_000_000;
+            let obs = run_dynamic(&text, &sigs, true, &script, &opts);
+            let values: Vec<i64> = obs.draws.iter().filter_map(|d| if let DrawEvent::Draw { value, .. } = d { Some(*value) } else { None }).collect();
+            let bounds_log: Vec<i64> = obs.draws.iter().filter_map(|d| if let DrawEvent::Draw { bound, .. } = d { Some(*bound) } else { None }).collect();
+            let mut env = ScriptEnv::new(&script);
+            env.repeat_last = true;
+            env.draws = &values;
+            let r = crate::refsem::run(&prog, &sigs, &mut env, Fuel { steps: 100_000, rows: 1000 });
+            total.evals += 1;
+            total.nontrivial += 1;
+            total.witness("hundreds_of_draws_and_repeated_resets");
+            let proj = Proj { input_values: true, expected: true, output: true, checked_kind: true, lines: false, vars: false, verdicts: false };
+            let mut m = run_mismatch(&r, &obs, proj, None).map(|x| x.1);
+            if m.is_none() && (env.draw_pos != values.len() || env.bounds_seen != bounds_log) {
+                m = Some(format!("draw count: {} evaluations, {} logged draws (or bounds differ)", env.draw_pos, values.len()));
+            }
+            // after every reset the same 130 draws follow (2 of the let, 128 of the next 64 rows,
+            // same bounds): segments 2.. repeat segment 1; its first two draws (bounds 2^62, 3) also
+            // restart the stream that the run began with (the very first draw had another bound)
+            if m.is_none() {
+                let per: usize = 64 * 2 + 2;
+                let first = 128;
+                for seg in 2..6 {
+                    let start = first + (seg - 1) * per;
+                    let len = per.min(values.len().saturating_sub(start));
+                    if values.len() >= start && values[start..start + len] != values[first..first + len] {
+                        m = Some(format!("replay: the draws after reset number {seg} do not repeat the draws after reset number 1"));
+                        break;
+                    }
+                }
+            }
+            if let Some(m) = m {
+                total.violation("large scale: long run with resets", 1 << 60, format!("seed {sd}\n{text}{m}"), || dyn_replay(&text, &sigs, true, &script, &opts, vec![], &obs, &m));
+            }
+        }
+    }
     let meta = CheckMeta {
         id: "C17",
         tier,
@@ -236,7 +286,7 @@ pub fn run(tier: Tier, seed: u64) -> i32 {
             "bounds and seeds are fixed boundary sets (2, 3, 10, 2^31, 2^32+1, 2^62, a device-computed bound; 7 fixed seeds + 4 derived from VERIF_SEED); DESIGN section 10".into(),
             "runs longer than 64 rows (while(random(3)<2) under an unlucky seed) are out of scope".into(),
         ],
-        required_witnesses: vec!["run_with_draws", "reset_between_draws", "draw_replayed_after_reset", "same_seed_rerun"],
+        required_witnesses: vec!["hundreds_of_draws_and_repeated_resets", "run_with_draws", "reset_between_draws", "draw_replayed_after_reset", "same_seed_rerun"],
         exhaustive_note: "all programs x bounds x seeds within the bounds".into(),
         e1: false,
     };
